@@ -30,7 +30,7 @@ DEFECTS = ("kindless", "all", "rfilter", "bareident", "insnchk")
 
 TIERS = {
     # E: exhaustive constants;  sim: traces per worker; n: sessions replayed
-    "quick": dict(E_maxreq=3, sim=60, sim_workers=8, n=260, jobs=12, tlc_workers=8, replay_s=75, min_sessions=60),
+    "quick": dict(E_maxreq=3, sim=90, sim_workers=8, n=260, jobs=12, tlc_workers=8, replay_s=60, min_sessions=40),
     "thorough": dict(E_maxreq=5, sim=1500, sim_workers=8, n=6000, jobs=12, tlc_workers=8, replay_s=840,
                      min_sessions=1000),
 }
@@ -239,8 +239,17 @@ def judge(beh, out, pup):
     return None, info
 
 
+def _core(o):
+    return {k: v for k, v in o.items() if k != "nopt"}
+
+
 def is_clean(beh):
-    return all(all(e["impl"][c] == e["ref"] for c in e["impl"]) for e in beh)
+    return all(all(_core(e["impl"][c]) == _core(e["ref"]) for c in e["impl"]) for e in beh)
+
+
+def option_arrivals(beh):
+    """TLC's count of arrivals the reference decided through an option (selection guidance only)."""
+    return sum(e["ref"].get("nopt", 0) for e in beh)
 
 
 def shape(beh):
@@ -265,9 +274,12 @@ def select(behs, n, rng):
             late_sets = sum(1 for c in s[start:] if c.startswith("set"))
             last_is_run = 1 if s and s[-1] in ("contin", "restar") else 0
             return -(runs + late_sets + last_is_run)
-        shapes.sort(key=weight)
+        # within the budget, prefer histories in which options actually decide something
+        best = {sh: max(option_arrivals(b) for b in by[sh]) for sh in shapes}
+        shapes.sort(key=lambda sh: (-min(best[sh], 3), weight(sh)))
         for s in shapes:
             rng.shuffle(by[s])
+            by[s].sort(key=option_arrivals)          # pop() takes the behaviours exercising options first
         take, k = [], 0
         while len(take) < n // 2 and any(by.values()):
             s = shapes[k % len(shapes)]
@@ -344,12 +356,14 @@ def run(rep, tier, replay):
             raise vlib.ToolError(f"vacuous TLC run: actions never taken: {vac}")
     vlib.log(f"[tlc] E {rE.distinct} states {rE.generated} transitions depth {rE.depth} {rE.wall:.0f}s")
     asw_violates = []
-    for inv in ("InstalledEqualsLatest", "VerifiedIffInstalled", "StopsExactlyAtLatest", "OptionsHonouredWheneverSet"):
-        cfgW = write_cfg(f"W_{inv}_{os.getpid()}.cfg", "DapBp_W.cfg", MaxReq=T["E_maxreq"], INVARIANTS=inv)
-        rW = vlib.tlc("DapBpMC", cfgW, workers=2, timeout=120, heap="2g", name=f"c13W-{inv}")
+    invs = ("InstalledEqualsLatest", "VerifiedIffInstalled", "StopsExactlyAtLatest", "OptionsHonouredWheneverSet")
+    # quick: one run with all four (TLC reports the first violated); thorough: one run per invariant
+    for inv in (invs if tier == "thorough" else (" ".join(invs),)):
+        cfgW = write_cfg(f"W_{abs(hash(inv))}_{os.getpid()}.cfg", "DapBp_W.cfg", MaxReq=T["E_maxreq"], INVARIANTS=inv)
+        rW = vlib.tlc("DapBpMC", cfgW, workers=2, timeout=120, heap="2g", name=f"c13W-{os.getpid()}")
         vlib.tlc_expect_ok(rW, f"DapBp as written / {inv}")
         if rW.violated:
-            asw_violates.append(inv)
+            asw_violates.append(rW.violated)
         os.unlink(cfgW)
     os.unlink(cfgE)
     vlib.log(f"[tlc] as-written model violates: {asw_violates}")
